@@ -350,9 +350,9 @@ def run_fetch(spec, fsdir, rng=None, latencies=None, config=None, step_cap=20000
             raise HangDetected()
 
         # "fetching terminates": a fetcher that spins without ever yielding cannot be caught by
-        # the step cap; 30 s of real time for one simulated fetch (normally ~0.2 s) is a hang
-        old_handler = signal.signal(signal.SIGALRM, on_alarm)
-        signal.setitimer(signal.ITIMER_REAL, float((config or {}).get("hang_after_s", 30)))
+        # the step cap; 30 s of CPU time for one simulated fetch (normally ~0.2 s) is a hang
+        old_handler = signal.signal(signal.SIGPROF, on_alarm)
+        signal.setitimer(signal.ITIMER_PROF, float((config or {}).get("hang_after_s", 30)))  # CPU time of this process: immune to a loaded machine
         try:
             while True:
                 gevent.idle()
@@ -371,8 +371,8 @@ def run_fetch(spec, fsdir, rng=None, latencies=None, config=None, step_cap=20000
         except HangDetected:
             pass
         finally:
-            signal.setitimer(signal.ITIMER_REAL, 0)
-            signal.signal(signal.SIGALRM, old_handler)
+            signal.setitimer(signal.ITIMER_PROF, 0)
+            signal.signal(signal.SIGPROF, old_handler)
             if not g.dead:
                 g.kill(block=False)
                 gevent.idle()
@@ -380,7 +380,7 @@ def run_fetch(spec, fsdir, rng=None, latencies=None, config=None, step_cap=20000
             for item in sim.heap:
                 pass
         if outcome.get("hang"):
-            violation = Violation("T-term", "fetch does not terminate: the fetcher kept the CPU for a long stretch of real time "
+            violation = Violation("T-term", "fetch does not terminate: the fetcher burnt 30 s of CPU time "
                                   "without yielding (busy loop) in a simulated fetch that normally takes a fraction of a second")
         if violation is None and "error" in outcome:
             violation = Violation("T-term", f"make_nuwiki raised {outcome['error']}", detail={"tb": outcome.get("tb")})
